@@ -71,7 +71,9 @@ fn run_case(c: &Case, scratch: &str, idx: usize) -> Value {
   }
   let mut args: Vec<String> = vec![];
   if c.scan {
-    let mut rule = json!({"id": "r", "language": c.lang, "severity": "warning", "message": "found $A", "rule": {"pattern": c.pattern}});
+    // every other scan uses an error-level rule: the exit status changes, what is printed does not (the closing bracket of
+    // the JSON array included)
+    let mut rule = json!({"id": "r", "language": c.lang, "severity": if idx % 2 == 0 { "error" } else { "warning" }, "message": "found $A", "rule": {"pattern": c.pattern}});
     if let Some(k) = &c.kind {
       rule["rule"] = match (k.split_once('>'), k.split_once('<')) {
         // `a>b`: an `a` that has a `b` below it; `a<b`: an `a` inside a `b` - the JSON record carries `labels` then
